@@ -34,7 +34,7 @@ func c02Specs(tier string) []*h.SeqSpec {
 	const repo = "r"
 	limit := int64(len(f.Items["P"].Data) + 2)
 	tags := []string{"t1", "t2"}
-	items := []string{"b0", "b4", "I1", "I2", "D1", "DL", "X2", "P", "Pp1", "Pp2", "Pp3", "Pp4"}
+	items := []string{"b0", "b4", "I1", "I2", "D1", "DL", "X2", "X", "Y", "P", "Pp1", "Pp2", "Pp3", "Pp4"}
 	var specs []*h.SeqSpec
 	for _, store := range []string{"mem", "dir"} {
 		store := store
@@ -46,6 +46,8 @@ func c02Specs(tier string) []*h.SeqSpec {
 			}
 		}
 		ops = append(ops, opPushMan("C02", repo, f, "D1", "t1"), opPushMan("C02", repo, f, "DL", ""), opPushMan("C02", repo, f, "X2", "t2"))
+		// a nested index pushed completely (children by digest, untagged): its grandchildren are only reachable through two levels
+		ops = append(ops, h.Op{Name: "push nested index Y completely as t1", Do: func(w *h.World) []h.Violation { return gcPushMacro(w, f, repo, "Y", "t1") }})
 		pads := []int{2, 3}
 		if tier == "thorough" {
 			pads = []int{1, 2, 3, 4}
